@@ -509,6 +509,8 @@ class Evaluator:
             return v if isinstance(v, IntV) else Top("operator.index of a non-integer")
         w = getattr(self, "walker", None)
         if w is not None and isinstance(f, ast.Name) and f.id in w.mod.funcs and f.id not in self.env:
+            if getattr(w, "depth", 0) >= 4:
+                return Top(f"helper {f.id}() nested too deeply (recursive?)")
             return w.eval(n, self.env)      # a helper of the module, wherever the call is nested
         if isinstance(f, ast.Name):
             name = f.id
